@@ -60,6 +60,7 @@ OPS = [
 OPS_EXTRA = True
 OPS_SHADOW = True
 OPS_PROV = True
+OPS_STATE = True
 SIBLINGS = [('copyable', 'cloneable'), ('cloneable', 'defaultable'), ('size', 'alignment'), ('prologue', 'epilogue'), ('target_size', 'size'),
             ('singleton', 'align'), ('base_name', 'original_name'), ('size', 'region_size'), ('last_address', 'size'), ('visibility', 'Visibility::Private'),
             ('doc', 'None'), ('idx', 'index'), ('associated_functions', 'vftable_functions'), ('base_vfunc', 'derived_vfunc'), ('scope_types', 'scope_modules'),
@@ -173,6 +174,29 @@ def mutants_of(rel):
             m = re.match(r'^(\s*)let (?:mut )?([a-z_][a-z0-9_]*) = (.*)\?;$', l)
             if m:
                 out.append((rel, i, l, '%slet %s = match %s { Ok(v) => v, Err(_) => return Ok(Default::default()) };' % (m.group(1), m.group(2), m.group(3)), 'error turned into Ok(default)'))
+        # state (run 9): a per-iteration local hoisted out of its loop (it then survives from one trip to the next); one conjunct /
+        # disjunct of a condition dropped
+        if OPS_STATE:
+            m = re.match(r'^(\s*)(for .* in .*|while .*|loop) \{$', l)
+            if m:
+                ind = m.group(1)
+                for j in range(i + 1, min(i + 12, len(src))):
+                    lj = src[j]
+                    if not lj.strip():
+                        continue
+                    mj = re.match(r'^' + ind + r'    let (mut )?([a-z_][a-z0-9_]*)(: [^=]+)? = (.*);$', lj)
+                    if not mj:
+                        break
+                    out.append((rel, i, l, ind + lj.strip().replace('let ', 'let mut ', 1).replace('let mut mut ', 'let mut ') + '\n' + l, 'hoist@%d: `%s` moved out of its loop' % (j, mj.group(2))))
+            m = re.match(r'^(\s*(?:\} else )?if )(?!let )(.+)( \{)$', l)
+            if m and 'if let' not in l:
+                cond = m.group(2)
+                for op in (' && ', ' || '):
+                    parts = cond.split(op)
+                    if len(parts) >= 2 and all(p.count('(') == p.count(')') for p in parts):
+                        for k in range(len(parts)):
+                            rest = op.join(parts[:k] + parts[k + 1:])
+                            out.append((rel, i, l, m.group(1) + rest + m.group(3), 'dropped %s `%s`' % ('conjunct' if op == ' && ' else 'disjunct', parts[k][:30])))
         # Some(x) -> None in a return position
         m = re.match(r'^(\s*)(return )?Some\((.*)\)(;?)$', l)
         if m and 'Ok(' not in l:
@@ -205,6 +229,9 @@ def worker(wid, queue, results, base):
             continue
         src2 = list(src)
         src2[i] = new
+        mh = re.match(r'^hoist@(\d+):', what)
+        if mh:
+            src2[int(mh.group(1))] = ''
         open(p, 'w').write('\n'.join(src2))
         rec = dict(file=rel, line=i + 1, what=what, old=old.strip(), new=new.strip())
         rc, out = run('cargo test --offline 2>&1 | tail -30', cwd=d, env=env, timeout=600)
